@@ -202,6 +202,12 @@ def step (line : String) : String :=
     | ["mux", stream, events, tags, noPayload] => Mux.handle stream events tags noPayload impl
     | ["tconn", journals, events, tags] => TConn.handle journals events tags impl
     | ["bb", ver, offset, declared, stream, ops] => BB.handle ver offset declared stream ops impl
+    | ["bbc", _, _, declared, stream, _] =>
+      -- paths without a result-level model (record batches, compression): only the conclusion of
+      -- `wire_discipline_consumes_frame` is applied to what was observed — a kept Conn consumed the declared frame
+      match declared.toNat?, ofHex stream, impl.splitOn ";" with
+      | some sz, some inp, [kept, consumed] => answer impl (kept != "1" || consumed == toString sz || inp.length < sz)
+      | _, _, _ => "bad-op"
     | _ => "bad-op"
   | _ => "bad-op"
 
